@@ -106,10 +106,12 @@ def sumGraph (x : TG) (t : Nat) (dtype : Option Nat) (rank : Nat) (axis : AxisAr
   (match dtype with | some d => some d | none => accCode t 13).map (fun acc =>
     viaI64 acc (reduceCore .sum keepdims axis rank) (astypeG t acc x))
 
-/-- `prod(x, axis=, dtype=, keepdims=)`. -/
+/-- `prod(x, axis=, dtype=, keepdims=)`.  `via_upcast` (without the unsafe unsigned cast `sum` uses) has no signed type
+that holds uint64: an explicit `dtype=uint64` is a `TypeError`. -/
 def prodGraph (x : TG) (t : Nat) (dtype : Option Nat) (rank : Nat) (axis : AxisArg) (keepdims : Bool) : Option TG :=
-  (match dtype with | some d => some d | none => accCode t 12).map (fun acc =>
-    viaI64 acc (reduceCore .prod keepdims axis rank) (astypeG t acc x))
+  (match dtype with | some d => some d | none => accCode t 12).bind (fun acc =>
+    if acc = 13 then none else
+    some (viaI64 acc (reduceCore .prod keepdims axis rank) (astypeG t acc x)))
 
 def minGraph (x : TG) (t : Nat) (rank : Nat) (axis : AxisArg) (keepdims : Bool) : TG :=
   viaI64 t (reduceCore .min keepdims axis rank) x
